@@ -252,7 +252,7 @@ CURRENCIES = ['USD', "AB.C-D'E1"]
 META_KEYS = ['aa', 'a-b_C9']
 TAGS = ['t', 'a-b_c/d.e']
 TEXTS = ['x', 'a"b\\c', 'l1\nl2', '']
-BLOCK_COMMENTS = ['c', 'c\nd']
+BLOCK_COMMENTS = ['c', 'c\nd', '']          # '' is a bare ';' line: a value like any other
 INLINE_COMMENTS = ['c', '']
 DECIMALS = ['1', '-1.5', '0']
 DATES = ['2000-01-01', '2012-12-31', '0999-01-02']      # a year below 1000 needs zero padding
